@@ -11,6 +11,10 @@
     matches what was done to its data (C03-R2).
  R4 page geometry is written from the page's own state: /MediaBox from width/height, /Rotate from the
     rotation field whenever it is non-zero.
+ R5 every page resource is written: in `write_page_with_fonts` each loop over one kind of typed page resource (images, form XObjects,
+    colour spaces, patterns; not the preserved raw objects, whose non-stream entries are legitimately not written) that writes objects reaches `write_object` on every iteration, unless the path
+    that skips it is dominated by a comparison or hash of the resource's *content* (`data()` bytes). A skip decided by a cheap
+    fingerprint (name, size, length) makes a later page show an earlier page's image.
 Not decided: equality of page boxes, operands and images after the round trip; independent readers.
 """
 from .. import lib as L
@@ -25,6 +29,7 @@ FORBIDDEN = {"sort", "sort_by", "sort_by_key", "sort_unstable", "sort_unstable_b
 
 
 def run(ctx):
+    r5_every_resource_written(ctx)
     facts = ctx.facts
     n = 0
     bad = 0
@@ -105,3 +110,58 @@ def run(ctx):
             ctx.ok("R4", "page-dict:reads:%s" % f, "")
         else:
             ctx.violation("R4", "page-dict:reads:%s" % f, "Page::to_dict does not read the page's `%s`" % f, td.where())
+
+
+def r5_every_resource_written(ctx):
+    facts = ctx.facts
+    W = "writer::pdf_writer::PdfWriter::<W>::"
+    fn = ctx.fn(W + "write_page_with_fonts", "R5")
+    g = CF.cfg(fn)
+    fl = FL.flow(fn)
+    n = 0
+    for h, body in sorted(g.loops().items()):
+        nx = [b for b in body if fn.term(b)[0] == "call" and L.is_call_to(fn.term(b)[1], ["Iterator::next"])]
+        wo = [b for b in body if fn.term(b)[0] == "call" and L.is_call_to(fn.term(b)[1], [W + "write_object", W + "write_shading_object"])]
+        if not nx or not wo:
+            continue
+        # only loops that own their write (not an outer loop around an inner resource loop)
+        inner = [b2 for h2, b2 in g.loops().items() if h2 != h and h2 in body and any(w in b2 for w in wo)]
+        if inner and all(any(w in b2 for b2 in inner) for w in wo):
+            continue
+        st = (fn.term(nx[0])[1].get("self") or "")
+        kind = st.split("&")[-1].split(")")[0].strip().split("::")[-1] if "&" in st else st.split("::")[-1][:30]
+        if kind.startswith("Object") or "annotation" in st:
+            continue        # preserved raw objects / annotations: entries that are not streams are legitimately not written
+        n += 1
+        key = "write_page_with_fonts:loop[%s]:every-item-written" % kind
+        dest = fn.term(nx[0])[3][0]
+        y, no = L.discr_edges(fn, dest, 1)
+        some_t = [t for s_, t in y if t in body] or [nx[0]]
+        latches = [s_ for s_, hh in g.back_edges() if hh == h]
+        outside = set(range(len(fn.blocks))) - set(body)
+        w = g.path(some_t[0], latches, avoid_blocks=set(wo) | outside)
+        if w is None:
+            ctx.ok("R5", key, "write_object on every path round the loop", fn.where(h))
+            continue
+        # a skip path: allowed when some block on it compares / hashes the item's content bytes
+        content_test = False
+        for x in w:
+            t = fn.term(x)
+            if t[0] == "call" and isinstance(t[1], dict) and (L.is_call_to(t[1], ["PartialEq::eq", "PartialEq::ne", "hash", "finalize", "digest", "update"])):
+                seen, drecs = fl.back_slice([l for o in t[2] for l in FL.op_locals(o)])
+                if any(dd[0] == "call" and L.is_call_to(fn.term(dd[1])[1], ["data", "as_slice", "to_vec"]) and
+                       not any(dd2[0] == "call" and L.is_call_to(fn.term(dd2[1])[1], ["len"]) for dd2 in drecs) for dd in drecs):
+                    content_test = True
+        # skip paths that exist on the unchanged tree for items that are not streams (e.g. annotation entries without /AP) are
+        # value-dependent: accept when the path passes a type test of the item itself (`if let Object::Stream(..) = item`)
+        type_test = any(fn.term(x)[0] == "sw" and any(st2[2][0] == "discr" for st2 in fn.blocks[x][0]) and x != some_t[0] and
+                        not any(fn.term(y2)[0] == "call" and L.is_call_to(fn.term(y2)[1], ["HashMap::<K, V, S, A>::get", "contains_key"]) for y2 in w)
+                        for x in w)
+        if content_test or type_test:
+            ctx.ok("R5", key, "an item is skipped only after a test of its content / kind", fn.where(h))
+        else:
+            ctx.violation("R5", key, "an iteration of the loop over the page's %s can reach the next item without writing the object "
+                          "(line(s) %s), and the skipping path never compares or hashes the item's content bytes: an item that merely "
+                          "shares a cheap fingerprint (name, dimensions, length) with one written earlier is replaced by it — a later "
+                          "page shows an earlier page's image" % (kind, sorted(set(fn.line(x) for x in w))[:8]), fn.where(w[0]))
+    ctx.floor("R5", "typed resource loops in write_page_with_fonts that write objects", n, 3)
